@@ -20,16 +20,29 @@ def _report(par, triple):
     par.update(ParameterValues(*triple))
 
 
-async def _probe(tbl, idx, raw, lo, hi, other, via_device=False, prior=None):
+def _decoded(triple, size):
+    """the triple as the library's own decoder of parameter slots (helpers.parameter.unpack_parameter) delivers it from the bytes
+    the controller sends for it (None: an undefined slot)"""
+    from pyplumio.helpers.parameter import unpack_parameter
+    data = bytearray(b"".join(int(x).to_bytes(size, "little") for x in triple))
+    v = unpack_parameter(data, 0, size)
+    return None if v is None else [v.value, v.min_value, v.max_value]
+
+
+async def _probe(tbl, idx, raw, lo, hi, other, via_device=False, prior=None, size=None):
     """display of raw / bounds, and the raw value transmitted when the displayed value is written back.
     prior = raw bounds of an EARLIER report carrying the same raw value (the parameter object has a history)."""
     if tbl == 5:
         p, queue, sc, rc, dec = await param_impl.make_schedule_param(idx, [raw, lo, hi])
         q, queue2, sc2, rc2, dec2 = await param_impl.make_schedule_param(idx, [other, 0, 65535])
     else:
-        p, queue, sc, rc, dec = param_impl.make_param(tbl, idx, [raw, lo, hi] if prior is None else [raw, prior[0], prior[1]], True, 0)
+        first = [raw, lo, hi] if prior is None else [raw, prior[0], prior[1]]
+        if size is not None:
+            # the values reach the parameter through the decoder of parameter slots, as they do in use
+            first = _decoded(first, size) or first
+        p, queue, sc, rc, dec = param_impl.make_param(tbl, idx, first, True, 0)
         if prior is not None:
-            _report(p, [raw, lo, hi])
+            _report(p, (_decoded([raw, lo, hi], size) if size is not None else None) or [raw, lo, hi])
         q, queue2, sc2, rc2, dec2 = param_impl.make_param(tbl, idx, [other, 0, 65535], True, 0)
     shown, smin, smax = p.value, p.min_value, p.max_value
     import asyncio
@@ -118,7 +131,7 @@ class C17(Prop):
     prop_file = "Props/C17.v"
     rule = ("every number description of every table x raw values (quick: boundaries + random sample, all 256 for the scaled 1-byte "
             "descriptions, 512 for 2-byte; thorough: all 256 / 8192): displayed value, displayed bounds (bit-exact against the PrimFloat model "
-            "evaluated by vm_compute) and the raw value transmitted when the displayed value is written back; half of the parameter objects have a history (an earlier report carrying the same raw value with other bounds).  Non-trivial = multiplier != 1 or "
+            "evaluated by vm_compute) and the raw value transmitted when the displayed value is written back; half of the triples pass through the library's decoder of parameter slots (bounds in reverse order included); half of the parameter objects have a history (an earlier report carrying the same raw value with other bounds).  Non-trivial = multiplier != 1 or "
             "offset != 0 or raw > 0; distinct by (description, raw).")
     assumptions = ["theorem: exhaustive kernel sweep (vm_compute) over all raw values of all distinct scalings, bound 256^size in the statement",
                    "Python round()/int() on floats are modelled bit-exactly with PrimFloat and validated here on every run"]
@@ -152,13 +165,18 @@ class C17(Prop):
                     def held_for(r):
                         x = int((r - d["offset"]) * d["multiplier"])
                         return x if (scaled and 0 <= x <= hi and x != r and rng.random() < 0.6) else (r + 1) % (hi + 1)
+                    lo_, hi_ = rng.choice([0, raw]), rng.choice([hi, raw])
+                    if rng.random() < 0.15:
+                        lo_ = rng.randrange(1, hi + 1)        # bounds reported in reverse order (nothing lies within them)
+                        hi_ = rng.randrange(0, lo_)
                     cases.append({"kind": "%s:%s" % (name, "scaled" if scaled else "plain"), "tbl": tbl, "idx": idx, "raw": raw,
-                                  "lo": rng.choice([0, raw]), "hi": rng.choice([hi, raw]), "other": held_for(raw),
+                                  "lo": lo_, "hi": hi_, "other": held_for(raw),
+                                  "decoded_size": d["size"] if tbl != 5 and rng.random() < 0.5 and (raw, lo_, hi_) != (hi, hi, hi) else None,
                                   # (the controller may report a value outside the bounds it reports with it: writing back what is
                                   #  displayed for it is refused like any other out-of-range value)
                                   "acc": [w, blo, bhi, w if not (blo <= w <= bhi) and rng.random() < 0.4 else held_for(w)],
                                   "via_device": rng.random() < 0.5,
-                                  # half of the parameter objects have a history: an earlier report with the same value and other bounds
+                                  # half of the triples pass through the library's decoder of parameter slots (bounds in reverse order included); half of the parameter objects have a history: an earlier report with the same value and other bounds
                                   "prior": None if tbl == 5 or rng.random() < 0.5 else sorted([rng.choice(marks), rng.choice(marks)])})
         # two parameters reported with identical bytes: writing one must not change what the other displays (nor what either
         # displays for the same report later)
@@ -184,7 +202,7 @@ class C17(Prop):
             return {"pair": [coqeval.float_key(float(other_now)), coqeval.float_key(float(first_later)), coqeval.float_key(float(other_later))],
                     "_stable": other_now == before[1] and first_later == before[0] and other_later == before[1]}
         shown, smin, smax, sent = vloop.run(_probe, c["tbl"], c["idx"], c["raw"], c["lo"], c["hi"], c["other"], c.get("via_device", False),
-                                            c.get("prior"))
+                                            c.get("prior"), c.get("decoded_size"))
         out = {"display": coqeval.float_key(float(shown)), "min": coqeval.float_key(float(smin)),
                "max": coqeval.float_key(float(smax)), "sent": sent}
         if "acc" in c:
@@ -192,10 +210,18 @@ class C17(Prop):
         return out
 
     def model_many(self, cases):
+        key = hash(repr(cases))
+        if getattr(self, "_mm_key", None) == key:
+            return self._mm_val
+        val = self._model_many(cases)
+        self._mm_key, self._mm_val = key, val
+        return val
+
+    def _model_many(self, cases):
         pairs = [c for c in cases if c["kind"].startswith("pair:")]
         if pairs:
             rest = [c for c in cases if not c["kind"].startswith("pair:")]
-            r_rest = iter(self.model_many(rest)) if rest else iter([])
+            r_rest = iter(self._model_many(rest)) if rest else iter([])
             ex = []
             for c in pairs:
                 ex += [f"fe_display {c['tbl']} {c['idx2']} {c['raw']}", f"fe_display {c['tbl']} {c['idx']} {c['raw']}"]
@@ -245,13 +271,17 @@ class C17(Prop):
         # functional property: what is transmitted for the displayed value is the raw value itself
         # ... and the displayed form of a raw value is accepted exactly when the raw value lies within the held raw bounds
         out = []
-        for c, b in zip(cases, behaviours):
+        mods = self.model_many(cases)
+        for (c, b), m in zip(zip(cases, behaviours), mods):
             if c["kind"].startswith("pair:"):
                 # what a parameter displays for a reported raw value depends on that report alone: not on a write to another
                 # parameter reported with the same bytes, nor on an earlier write to itself
                 out.append(bool(b.get("_stable")))
                 continue
             ok = b["sent"] == [c["raw"]]
+            # the displayed value and bounds are the displayed forms (PrimFloat model, bit for bit) of the raw value and raw bounds
+            if isinstance(m, dict) and "display" in m:
+                ok = ok and b["display"] == m["display"] and b["min"] == m["min"] and b["max"] == m["max"]
             if "acc" in c:
                 w, blo, bhi, _ = c["acc"]
                 ok = ok and b.get("accept") == ([w] if blo <= w <= bhi else "refused")
